@@ -4,6 +4,7 @@ import (
 	"context"
 	"errors"
 	"io"
+	"sync"
 
 	"github.com/cloudwego/eino/components/model"
 	"github.com/cloudwego/eino/components/tool"
@@ -52,7 +53,11 @@ func (m *c18Model) WithTools(tools []*schema.ToolInfo) (model.ToolCallingChatMod
 	return m, nil
 }
 
+var c18Mu sync.Mutex
+
 func (m *c18Model) next(input []*schema.Message) (*schema.Message, int) {
+	c18Mu.Lock()
+	defer c18Mu.Unlock()
 	var h []c18Msg
 	for _, x := range input {
 		h = append(h, c18Snap(x))
@@ -100,7 +105,9 @@ func (t *c18Tool) Info(ctx context.Context) (*schema.ToolInfo, error) {
 	return &schema.ToolInfo{Name: t.name}, nil
 }
 func (t *c18Tool) InvokableRun(ctx context.Context, args string, opts ...tool.Option) (string, error) {
+	c18Mu.Lock()
 	*t.runs = append(*t.runs, t.name+"("+args+")")
+	c18Mu.Unlock()
 	return "r_" + t.name + "(" + args + ")", nil
 }
 
